@@ -60,6 +60,10 @@ pub struct ContSc {
     pub hash_seed: u64,
     pub initial: Vec<(usize, usize, u64)>,
     pub ops: Vec<COp>,
+    /// the first `preload` nodes are members before the history starts (big containers: a few
+    /// thousand members, then a handful of calls)
+    #[serde(default)]
+    pub preload: usize,
 }
 
 pub struct Container;
@@ -621,13 +625,24 @@ fn run<F: Flavour>(sc: &ContSc, stats: &mut Stats) -> Option<(Violation, usize)>
         twin: BTreeMap::new(),
         dup_keys: sc.dup_keys.clone(),
     };
+    if sc.preload > 0 {
+        stats.inc("runs_with_thousands_of_members");
+        for k in 0..sc.preload.min(n) {
+            let node = st.world.nodes[k].clone();
+            F::g_insert(st.world.graph.as_mut().unwrap(), node);
+            st.members.insert(k, k);
+        }
+    }
     let mut out = None;
     for (i, op) in sc.ops.iter().enumerate() {
         stats.inc("calls");
+        if F::SYNC {
+            solo.set_budget(2_000_000 + 200 * n as u64);
+        }
         let kind = format!("{op:?}");
         let kind = kind.split(|c: char| !c.is_alphanumeric()).next().unwrap_or("").to_lowercase();
         stats.inc(&format!("cop_{kind}"));
-        let shape = crate::rng::fnv(format!("{:?}|{}", st.members.keys().collect::<Vec<_>>(), st.model.shape_hash()).as_bytes());
+        let shape = if st.members.len() > 200 { st.members.len() as u64 } else { crate::rng::fnv(format!("{:?}|{}", st.members.keys().collect::<Vec<_>>(), st.model.shape_hash()).as_bytes()) };
         stats.mark("state_and_call", shape ^ crate::rng::fnv(kind.as_bytes()));
         let r = caught(|| step::<F>(&mut st, op, stats));
         match r {
@@ -661,6 +676,32 @@ impl Engine for Container {
             flavour = f;
         }
         let directed = flavour.contains("digraph");
+        if rng.chance(1, 8000) {
+            // a container with more than 4096 members (no edges), then a handful of calls: members
+            // leave and come back, views and exports in between
+            let n = rng.range(4100, 5200);
+            let mut ops = Vec::new();
+            for _ in 0..rng.range(3, 9) {
+                let k = rng.below(n);
+                ops.push(match rng.below(10) {
+                    0..=2 => COp::Remove { k, sole: false },
+                    3..=4 => COp::Insert { oid: k, sole: false },
+                    5 => COp::ToVec,
+                    6 => COp::Len,
+                    7 => COp::Iter,
+                    8 => rng.pick(&[COp::Roots, COp::Leaves, COp::Orphans, COp::ToDot]).clone(),
+                    _ => COp::Get { k },
+                });
+                if let Some(COp::Remove { k, .. }) = ops.last().cloned() {
+                    // mostly the member comes straight back
+                    if rng.chance(3, 4) {
+                        ops.push(COp::Insert { oid: k, sole: false });
+                        ops.push(rng.pick(&[COp::ToVec, COp::Len, COp::Iter, COp::Orphans]).clone());
+                    }
+                }
+            }
+            return ContSc { flavour, prios: vec![0; n], dup_keys: vec![0], hash_seed: rng.next_u64(), initial: Vec::new(), ops, preload: n };
+        }
         let small = rng.chance(1, 2);
         let n = if small {
             rng.range(1, 3)
@@ -730,6 +771,7 @@ impl Engine for Container {
             hash_seed: rng.next_u64(),
             initial,
             ops,
+            preload: 0,
         }
     }
 
